@@ -56,7 +56,16 @@ def evaluate(case, obs, decs, cfg=None):
     a = hexec.Asm(obs[-1] if not obs[-1].startswith("SAN:") else obs[-2])
     if a.ret is None:
         return {"harness"}, None
+    if "must_reject" in case.flags:
+        # the line must be refused and must not emit anything
+        if a.ret == 0:
+            return {"accepted"}, a.hex[:2 * max(a.off, 0)] or None
+        if a.lo != -1:
+            return {"emitted"}, None
+        return set(), None
     if a.ret != 0:
+        if "may_reject" in case.flags:
+            return set(), "REJECTED"
         return {"rejected"}, None
     disc = set()
     n = a.off
@@ -108,6 +117,7 @@ def _work(rng):
     fails = []
     outs = set()
     reached = 0
+    conservative = 0
     samples = []
     for ci, c in enumerate(cases):
         got = False
@@ -116,7 +126,10 @@ def _work(rng):
             obs = res[k]
             k += 1
             disc, hx = evaluate(c, obs, decs, cfg)
-            if hx:
+            if hx == "REJECTED":
+                conservative += 1
+                hx = None
+            if hx or "must_reject" in c.flags:
                 got = True
             if extra_check is not None and hx and not disc:
                 disc |= extra_check(c, cfg, hx, decs.get(hx)) or set()
@@ -134,7 +147,7 @@ def _work(rng):
         if ci in (0, len(cases) // 2) and len(samples) < 2:
             samples.append({"text": c.text, "cfg": cfg_name(per[0][0]), "bytes": per[0][2],
                             "expected": repr((c.op, c.ops))})
-    return fails, outs, reached, len(lines), samples
+    return fails, outs, reached, len(lines), samples, conservative
 
 
 def run_block(rep, cases, cfgs, extra_check=None, note_outcome=True, validate_tag=None, group_check=None):
@@ -168,7 +181,9 @@ def run_block(rep, cases, cfgs, extra_check=None, note_outcome=True, validate_ta
         with multiprocessing.get_context("fork").Pool(nw) as pool:
             parts = pool.map(_work, rngs)
     samples = []
-    for fails, outs, reached, nev, smp in parts:
+    for fails, outs, reached, nev, smp, cons in parts:
+        if cons:
+            rep.extra["conservative_rejections"] = rep.extra.get("conservative_rejections", 0) + cons
         rep.evaluations += nev
         rep.traces += nev
         rep.distinct_n += reached
